@@ -373,6 +373,40 @@ def base_loop(c, which):
     c.holds('epilogue:no_transition_no_callback_no_record', builtins.len(s.calls) == k0 and builtins.len(cb) == cb0 and builtins.len(chain.appended) == 1 and chain.mutations() == [])
 
 
+def state_dictionary(c):
+    """get_state / set_state of the base class with an arbitrary sampler (arbitrary declared state keys holding opaque objects): the saved dictionary holds exactly the
+    declared state keys with the objects the attributes hold; loading it into another sampler of the same type assigns exactly those objects and nothing else;
+    a state of another sampler type or with an undeclared key is refused; history likewise"""
+    class A(SMOD.Sampler):
+        _STATE_KEYS = SMOD.Sampler._STATE_KEYS.union({'alpha', '_beta'})
+        def _initialize(self): self.alpha = ('alpha', 0); self._beta = ('beta', 0)
+        def validate_target(self): pass
+        def step(self): return 1
+        def tune(self, skip_len, update_count): pass
+    class B(A): pass
+    class _T: dim = 2; geometry = None
+    s = A(_T(), initial_point=('state', 0)); s.initialize()
+    s.current_point = ('state', 7); s.alpha = ('alpha', 7); s._beta = ('beta', 7); s._samples.append(('state', 7))
+    st = s.get_state()
+    c.holds('saved_state_has_exactly_the_declared_keys', set(st['state']) == set(A._STATE_KEYS) and st['metadata']['sampler_type'] == 'A')
+    c.holds('saved_values_are_the_objects_the_attributes_hold', all(st['state'][k] is getattr(s, k) for k in A._STATE_KEYS))
+    t = A(_T(), initial_point=('state', 0)); t.initialize()
+    before = dict(vars(t))
+    t.set_state(st)
+    c.holds('loading_assigns_exactly_the_saved_objects', all(getattr(t, k) is st['state'][k] for k in A._STATE_KEYS))
+    changed = {k for k in vars(t) if k not in before or vars(t)[k] is not before[k]}
+    c.holds('loading_changes_nothing_but_the_declared_state', changed <= {'_current_point', 'current_point', 'alpha', '_beta'}, note=str(changed))
+    c.holds('history_is_not_part_of_the_state', t._samples == [] and 'state' in st and '_samples' not in st['state'])
+    c.expect_raise('state_of_another_sampler_type_refused', lambda: B(_T(), initial_point=('state', 0)).set_state(st), ValueError)
+    bad = {'metadata': dict(st['metadata']), 'state': dict(st['state'], gamma=1)}
+    c.expect_raise('undeclared_key_refused', lambda: A(_T(), initial_point=('state', 0)).set_state(bad), ValueError)
+    h = s.get_history()
+    c.holds('saved_history_has_exactly_the_declared_history_keys_with_the_stored_objects', set(h['history']) == set(A._HISTORY_KEYS) and all(h['history'][k] is getattr(s, k) for k in A._HISTORY_KEYS))
+    t.set_history(h)
+    c.holds('loading_history_assigns_exactly_the_saved_objects', all(getattr(t, k) is h['history'][k] for k in A._HISTORY_KEYS))
+    c.expect_raise('history_of_another_sampler_type_refused', lambda: B(_T(), initial_point=('state', 0)).set_history(h), ValueError)
+
+
 def base_loop_first_use(c, which):
     """the prologue on a sampler that was never initialised: initialises it (empty chain) and performs no transition"""
     cb = []; s = _generic_sampler(cb)
@@ -478,13 +512,13 @@ LEG = {
     'pCN': lambda cb=None: LG.pCN(_posterior(), scale=0.3, x0=0.5 * np.ones(3), callback=cb),
     'ULA': lambda cb=None: LG.ULA(_gauss_target(), scale=0.05, x0=0.5 * np.ones(3), callback=cb),
     'MALA': lambda cb=None: LG.MALA(_gauss_target(), scale=0.3, x0=0.5 * np.ones(3), callback=cb),
-    'NUTS': lambda cb=None: LG.NUTS(_gauss_target(), x0=0.5 * np.ones(3), max_depth=4, callback=cb),
+    'NUTS': lambda cb=None: LG.NUTS(_gauss_target(), x0=0.5 * np.ones(3), max_depth=4, adapt_step_size=0.35, callback=cb),      # (a fixed step size: with two burn-in steps the adapted one freezes the chain)
     'LinearRTO': lambda cb=None: LG.LinearRTO(_posterior(), x0=0.5 * np.ones(3), callback=cb),
     'UGLA': lambda cb=None: LG.UGLA(_lmrf_posterior(), x0=0.5 * np.ones(4), callback=cb),
 }
 
 
-def legacy_recording(c, name, adapt, N=6, Nb=2, short=False):
+def legacy_recording(c, name, adapt, N=12, Nb=2, short=False):
     if adapt and not short: N = 20
     seed = int(c.real('seed', lo=0, hi=10 ** 6)); np.random.seed(seed)
     log = []
@@ -493,6 +527,8 @@ def legacy_recording(c, name, adapt, N=6, Nb=2, short=False):
     out = (s.sample_adapt if adapt else s.sample)(N, Nb)
     ch = out.samples
     c.holds('recorded_chain_has_exactly_the_requested_length', ch.shape[-1] == N, note=str(ch.shape))
+    if not short and name != 'CWMH':      # (vacuity guard for the comparisons below; twelve or more transitions of these configurations move with overwhelming probability)
+        c.holds('harness:the_chain_moves', len({tuple(np.round(col, 12)) for col in ch.T}) >= 2, note='all recorded states are identical: the comparisons below would be vacuous')
     idx = [i for _, i in log]
     c.holds('callback_invoked_exactly_once_per_transition_with_its_index_in_the_chain', idx == list(range(1, N + Nb)), note=f"{idx[:12]} (expected 1..{N + Nb - 1})")
     if idx == list(range(1, N + Nb)):
@@ -540,6 +576,8 @@ def jobs(tier):
                      [f'{SM}:Sampler.{which}', f'{SM}:Sampler._call_callback', f'{SM}:Sampler._ensure_initialized'], extra=_loop_extra, num=False))
         J.append(Job(f'experimental.Sampler.{which}:prologue_on_first_use', lambda c, w=which: base_loop_first_use(c, w), 'Pbox',
                      [f'{SM}:Sampler.{which}', f'{SM}:Sampler.initialize'], extra=_loop_extra, num=False))
+    J.append(Job('experimental.Sampler.get_state_set_state:arbitrary_declared_state', state_dictionary, 'Pinf',
+                 [f'{SM}:Sampler.get_state', f'{SM}:Sampler.set_state', f'{SM}:Sampler.get_history', f'{SM}:Sampler.set_history'], num=False))
     for name in EXP:
         J.append(Job(f'experimental.{name}:state_closure_native', lambda c, n=name: native_closure(c, n), 'B', [f'{SM}:Sampler.get_state', f'{SM}:Sampler.set_state'], nnum=2))
     LS = 'cuqi.sampler._sampler'
